@@ -62,7 +62,8 @@ class TemplateMaskCache:
     def get(self, backend: Backend) -> tuple[_Template, _Mask] | None:
         if out := self._dict.get(backend):
             return out
-        if val := next(iter(self._dict.values()), None):
+        # NOTE: take a snapshot, other threads may insert their items concurrently.
+        if val := next(iter(tuple(self._dict.values())), None):
             self._dict[backend] = out = backend.asarray(val[0]), backend.asarray(val[1])
             return out
         return None
